@@ -98,6 +98,16 @@ pub fn exec(case: &SerCase) -> RunOut {
     let (y, obligations): (Option<Box<dyn DynDs>>, bool) = match &case.plan {
         None => {
             out.count("config.fault_free", 1);
+            // both fault-free paths users have: from a byte slice, and from a reader
+            match catch(|| x.de_slice(cfg, &bytes0)) {
+                Ok(Ok(z)) => {
+                    if !catch(|| z.eq_dyn(x.as_ref())).unwrap_or(false) {
+                        out.violate(sig(&fam, "eq", "not_equal", shape), format!("{}: the value deserialized from the byte slice does not compare equal to the original", x.kind()));
+                    }
+                }
+                Ok(Err(e)) => out.violate(sig(&fam, "deserialize_slice", "decode_error", shape), format!("deserializing {} from the byte slice just produced ({} bytes) failed: {e}", x.kind(), bytes0.len())),
+                Err(msg) => out.violate(sig(&fam, "deserialize_slice", panic_kind(&msg), shape), format!("deserializing {} from a byte slice panicked: {msg}", x.kind())),
+            }
             let r = catch(|| x.de_from(cfg, &mut &bytes0[..]));
             match r {
                 Ok(Ok(y)) => (Some(y), true),
